@@ -194,6 +194,7 @@ type UpReq struct {
 
 // Cell: one set of stub upstreams (fixed ports) whose content can be swapped per case.
 type Cell struct {
+	eph     bool
 	stubs   map[string]*Stub
 	cur     atomic.Value // *Cluster
 	mu      sync.Mutex
@@ -205,11 +206,12 @@ type Cell struct {
 }
 
 type Stub struct {
-	name string
-	cell *Cell
-	ln   net.Listener
-	port int
-	srv  *http.Server
+	name  string
+	cell  *Cell
+	ln    net.Listener
+	port  int
+	srv   *http.Server
+	slowN int64
 }
 
 var allStubNames = []string{"L1", "L2", "N1", "N2", "N3"}
@@ -319,7 +321,45 @@ func writeJSON(w http.ResponseWriter, code int, v interface{}) {
 
 type obj map[string]interface{}
 
+// ephWriter / ephQuery: the wire names of a cell in "ephemeral names" mode (see newViewCell)
+type ephWriter struct{ http.ResponseWriter }
+
+func (e ephWriter) Write(b []byte) (int, error) {
+	n := len(b)
+	b = bytes.ReplaceAll(b, []byte(`"t3"`), []byte(`"t3#ephemeral"`))
+	b = bytes.ReplaceAll(b, []byte(`"c2"`), []byte(`"c2#ephemeral"`))
+	_, err := e.ResponseWriter.Write(b)
+	return n, err
+}
+func (e ephWriter) Hijack() (net.Conn, *bufio.ReadWriter, error) {
+	return e.ResponseWriter.(http.Hijacker).Hijack()
+}
+func (e ephWriter) Flush() {
+	if fl, ok := e.ResponseWriter.(http.Flusher); ok {
+		fl.Flush()
+	}
+}
+
+func ephQuery(r *http.Request) {
+	q := r.URL.Query()
+	for key, plain := range map[string]string{"topic": "t3", "channel": "c2"} {
+		if v, ok := q[key]; ok && len(v) == 1 {
+			switch v[0] {
+			case plain + "#ephemeral":
+				q.Set(key, plain)
+			case plain:
+				q.Set(key, plain+"-is-not-its-name") // this upstream has no such topic / channel
+			}
+		}
+	}
+	r.URL.RawQuery = q.Encode()
+}
+
 func (s *Stub) ServeHTTP(w http.ResponseWriter, r *http.Request) {
+	if s.cell.eph {
+		ephQuery(r)
+		w = ephWriter{w}
+	}
 	s.record(r)
 	cl := s.cell.cluster()
 	f := cl.fail(s.name)
@@ -344,6 +384,17 @@ func (s *Stub) ServeHTTP(w http.ResponseWriter, r *http.Request) {
 		writeJSON(w, 200, obj{"topics": 5, "producers": "x", "channels": 7, "version": 3, "http_port": "y"})
 		return
 	case "slow":
+		// an answer that does not complete in time: every other time the status line, the headers and the beginning of a
+		// well-formed body are there at once -- and then nothing more
+		if atomic.AddInt64(&s.slowN, 1)%2 == 0 {
+			w.Header().Set("Content-Type", "application/json; charset=utf-8")
+			w.Header().Set("Content-Length", "4096")
+			w.WriteHeader(200)
+			w.Write([]byte(`{"version":"1.3.0","health":"OK","start_time":1,"topics":[`))
+			if fl, ok := w.(http.Flusher); ok {
+				fl.Flush()
+			}
+		}
 		select {
 		case <-r.Context().Done():
 		case <-time.After(60 * time.Second):
